@@ -13,8 +13,14 @@
 // test hook on the harness side only: vfork can be made to fail (the macro is not re-expanded inside itself)
 static int nvFailVfork = 0;
 #define vfork() (nvFailVfork ? (errno = EAGAIN, (pid_t)-1) : vfork())
+// ... and the k-th pipe() call from now on can be made to fail (0 = none)
+static int nvFailPipe = 0;
+#define pipe(fds) (nvFailPipe && --nvFailPipe == 0 ? (errno = EMFILE, -1) : pipe(fds))
 #include "../src/Process.cpp"
 #undef vfork
+#undef pipe
+#include <pthread.h>
+#include <sys/wait.h>
 
 static const char* childPath = "";
 static size_t childPathLen = 0;
@@ -136,6 +142,33 @@ static void opArgs(const HxLine& l)
     free((void*)opts[i].name);
   free(opts);
   free(optTok);
+}
+
+// args0: argc == 0 (argv = {0}): the constructor steps to argv + 1 which is behind argvEnd; read must return false at once
+static void opArgs0()
+{
+  char** argv = (char**)malloc(sizeof(char*));
+  argv[0] = 0;
+  {
+    static const Process::Option table[2] = {{'a', "alpha", 0}, {'o', "out", 1}};
+    Process::Arguments a(0, argv, table);
+    int character = 12345;
+    String argument;
+    printf("r");
+    for(int n = 0; n < 4; ++n)
+      if(!a.read(character, argument))
+      {
+        printf(" end");
+        break;
+      }
+      else
+      {
+        printf(" %d:", character);
+        hxPutHex((const char*)argument, argument.length());
+      }
+    hxEndLine();
+  }
+  free(argv);
 }
 
 // ---- splitCommandLine ------------------------------------------------------------------------------
@@ -657,6 +690,45 @@ static void opProc(const HxLine& l)
       snprintf(extra, sizeof(extra), " | einval=%d", errno == EINVAL ? 1 : 0);
     procObserve(ok, extra);
   }
+  else if(l.ntok == 2 && strcmp(op, "joinv") == 0)
+  { // join() without exit code
+    errno = 0;
+    bool ok = proc->join();
+    snprintf(extra, sizeof(extra), " | einval=%d", !ok && errno == EINVAL ? 1 : 0);
+    procObserve(ok, extra);
+  }
+  else if(l.ntok == 3 && strcmp(op, "startargv") == 0)
+  { // start(program, argc, argv)
+    char code[16];
+    snprintf(code, sizeof(code), "%u", (unsigned)hxNum(l, 2));
+    char* argv[] = {(char*)childPath, (char*)"@exit", code};
+    uint32 before = proc->pid;
+    errno = 0;
+    uint32 pid = proc->start(String(childPath, childPathLen), 3, argv);
+    snprintf(extra, sizeof(extra), " | pid=%s einval=%d", pid == 0 ? "0" : pid == proc->pid && pid != before ? "new" : "other", errno == EINVAL ? 1 : 0);
+    procObserve(pid != 0, extra);
+  }
+  else if(l.ntok == 4 && strcmp(op, "opencmd") == 0)
+  { // open(command line, streams)
+    String commandLine(childPath, childPathLen);
+    char t[32];
+    snprintf(t, sizeof(t), " @exit %u", (unsigned)hxNum(l, 3));
+    commandLine.append(t, strlen(t));
+    errno = 0;
+    bool ok = proc->open(commandLine, (uint)hxNum(l, 2));
+    snprintf(extra, sizeof(extra), " | einval=%d", errno == EINVAL ? 1 : 0);
+    procObserve(ok, extra);
+  }
+  else if(l.ntok == 4 && strcmp(op, "openfailpipe") == 0)
+  { // the k-th pipe() of open() fails (k = 1..3; when open() makes fewer pipes the call succeeds): nothing may be left behind
+    char* argv[] = {(char*)childPath, (char*)"@exit", (char*)"0"};
+    errno = 0;
+    nvFailPipe = (int)hxNum(l, 3);
+    bool ok = proc->open(String(childPath, childPathLen), 3, argv, (uint)hxNum(l, 2));
+    nvFailPipe = 0;
+    snprintf(extra, sizeof(extra), " | einval=%d", errno == EINVAL ? 1 : 0);
+    procObserve(ok, extra);
+  }
   else if(l.ntok == 2 && strcmp(op, "kill") == 0)
   {
     errno = 0;
@@ -723,6 +795,15 @@ static void clearTestEnv()
       if(strncmp(*e, "NVT_", 4) == 0)
       {
         const char* eq = strchr(*e, '=');
+        if(!eq)
+        { // an entry without '=' (env putraw): unsetenv does not find it; take it out of the vector
+          char* raw = *e;
+          for(char** q = e; *q; ++q)
+            q[0] = q[1];
+          free(raw); // allocated by `env putraw`
+          found = true;
+          break;
+        }
         char name[256];
         size_t n = eq ? (size_t)(eq - *e) : strlen(*e);
         if(n >= sizeof(name))
@@ -760,6 +841,31 @@ static void opEnv(const HxLine& l)
     free(d);
     printf("e val=");
     hxPutHex((const char*)val, val.length());
+  }
+  else if(l.ntok == 3 && strcmp(l.tok[1], "putraw") == 0)
+  { // an entry without '=' written into the environ vector by the application itself (glibc's putenv would treat such a
+    // string as a removal): getEnvironmentVariables skips it
+    size_t kl;
+    char* k = hxCStr(l.tok[2], kl); // owned by the vector; freed by clearTestEnv
+    bool ok = kl > 4 && strncmp(k, "NVT_", 4) == 0 && !strchr(k, '=');
+    if(ok)
+    {
+      static char** rawVec = 0;
+      size_t n = 0;
+      while(environ[n])
+        ++n;
+      char** v = (char**)malloc(sizeof(char*) * (n + 2));
+      memcpy(v, environ, n * sizeof(char*));
+      v[n] = k;
+      v[n + 1] = 0;
+      char** old = rawVec;
+      environ = v;
+      rawVec = v;
+      free(old);
+    }
+    else
+      free(k);
+    printf("e ok=%d", ok ? 1 : 0);
   }
   else if(l.ntok == 2 && strcmp(l.tok[1], "all") == 0)
   {
@@ -1192,6 +1298,276 @@ static void opKillTest(const HxLine& l)
   hxEndLine();
 }
 
+// ---- small static members -----------------------------------------------------------------------------
+// pexit <code>: a forked copy of the harness calls Process::exit(code); the parent reports the status it sees
+static void opPExit(const HxLine& l)
+{
+  unsigned code = (unsigned)hxNum(l, 1);
+  fflush(stdout);
+  pid_t pid = fork();
+  if(pid == 0)
+  {
+    Process::exit(code);
+    _exit(111); // not reached
+  }
+  int status = 0;
+  bool ok = pid > 0 && waitpid(pid, &status, 0) == pid;
+  printf("pexit ok=%d code=%d", ok ? 1 : 0, ok && WIFEXITED(status) ? WEXITSTATUS(status) : -1);
+  hxEndLine();
+}
+
+// ids: getCurrentProcessId() / getExecutablePath() against getpid() / readlink(/proc/self/exe)
+static void opIds()
+{
+  char path[4200];
+  ssize_t n = readlink("/proc/self/exe", path, sizeof(path) - 1);
+  String exe = Process::getExecutablePath();
+  bool sameExe = n >= 0 && exe.length() == (usize)n && memcmp((const char*)exe, path, (size_t)n) == 0;
+  printf("ids pid=%d exe=%d", Process::getCurrentProcessId() == (uint32)getpid() ? 1 : 0, sameExe ? 1 : 0);
+  hxEndLine();
+}
+
+// io2 <n> <seed> <code>: the two-argument read (stdout only) and write with one call each way per loop turn, the
+// child's input ended by close(stdinStream); close(stdoutStream) afterwards makes the three-argument read refuse (EINVAL)
+static void opIo2(const HxLine& l)
+{
+  unsigned long n = hxNum(l, 1), seed = hxNum(l, 2);
+  char a3[32], a4[32], a5[16];
+  snprintf(a3, sizeof(a3), "%lu", n);
+  snprintf(a4, sizeof(a4), "%lu", seed);
+  snprintf(a5, sizeof(a5), "%u", (unsigned)hxNum(l, 3));
+  char* argv[] = {(char*)childPath, (char*)"@io", (char*)"5", a3, a4, a5};
+  Capture cap(false);
+  Process p;
+  bool ok = p.open(String(childPath, childPathLen), 6, argv, Process::stdoutStream | Process::stdinStream);
+  uint pipes = pipesOf(p);
+  long written = 0;
+  bool eof = false, joined = false;
+  uint32 exitCode = 9999;
+  int afterClose = -2;
+  if(ok)
+  {
+    unsigned char* data = (unsigned char*)malloc(n ? n : 1);
+    for(unsigned long i = 0; i < n; ++i)
+      data[i] = pattern(i, seed + 2);
+    while((unsigned long)written < n)
+    {
+      ssize w = p.write(data + written, n - (unsigned long)written);
+      if(w <= 0)
+        break;
+      written += (long)w;
+    }
+    free(data);
+    p.close(Process::stdinStream);
+    static char buf[4096 + 1];
+    ssize r;
+    while((r = p.read(buf, 4096)) > 0)
+      cap.add(Process::stdoutStream, buf, (size_t)r);
+    eof = r == 0;
+    p.close(Process::stdoutStream);
+    uint s = Process::stdoutStream | Process::stderrStream;
+    errno = 0;
+    afterClose = p.read(buf, 16, s) == -1 && errno == EINVAL ? 1 : 0;
+    joined = p.join(exitCode);
+  }
+  printf("io2 ok=%d pipes=%u | joined=%d exit=%u eof=%d written=%ld closedrefuses=%d ", ok ? 1 : 0, pipes, joined ? 1 : 0, (unsigned)exitCode,
+    eof ? 1 : 0, written, afterClose);
+  fwrite((const char*)cap.out, 1, cap.out.length(), stdout);
+  printf(" out=%lu:%08x after=%u", cap.outCount, cap.outCrc, pipesOf(p) | (p.pid ? 8u : 0u));
+  hxEndLine();
+}
+
+// ---- Process::wait / Process::interrupt -------------------------------------------------------------------
+//   w new | w start <i> z <code> | w start <i> r | w die <i> | w join <i> | w kill <i> | w intr | w wait <list> <ms> <pick>
+// four Process objects; `z` children have terminated (not reaped) when the op returns, `r` children run until
+// killed; <list> = the object indices in the order they are passed (`-` = count 0); <ms> > 0: another thread calls
+// interrupt() after that many milliseconds; <pick> is for the model only (which terminated child the kernel reports).
+// Every line ends with: pend = an interrupt is pending, kids / zombies = our children (terminated ones) without the
+// dummy child of interrupt().
+static const int wCount = 4;
+static Process* wobj[wCount];
+
+static bool isZombie(uint32 pid)
+{
+  siginfo_t info;
+  info.si_pid = 0;
+  return waitid(P_PID, (id_t)pid, &info, WEXITED | WNOHANG | WNOWAIT) == 0 && info.si_pid == (pid_t)pid;
+}
+
+static void untilZombie(uint32 pid)
+{
+  for(int i = 0; i < 20000 && !isZombie(pid); ++i)
+    usleep(500);
+}
+
+static void wCensus(int& kids, int& zombies)
+{
+  kids = zombies = 0;
+  DIR* d = opendir("/proc");
+  if(!d)
+  {
+    kids = zombies = -1;
+    return;
+  }
+  int self = (int)getpid();
+  int dummy = ProcessFramework::signaled > 0 ? ProcessFramework::signaled : -1;
+  while(dirent* e = readdir(d))
+  {
+    if(e->d_name[0] < '0' || e->d_name[0] > '9')
+      continue;
+    char path[64], buf[512];
+    snprintf(path, sizeof(path), "/proc/%s/stat", e->d_name);
+    int fd = ::open(path, O_RDONLY);
+    if(fd < 0)
+      continue;
+    ssize_t n = ::read(fd, buf, sizeof(buf) - 1);
+    ::close(fd);
+    if(n <= 0)
+      continue;
+    buf[n] = 0;
+    const char* rp = strrchr(buf, ')');
+    char state = 0;
+    int ppid = -1;
+    if(!rp || sscanf(rp + 1, " %c %d", &state, &ppid) != 2 || ppid != self || atoi(e->d_name) == dummy)
+      continue;
+    ++kids;
+    if(state == 'Z')
+      ++zombies;
+  }
+  closedir(d);
+}
+
+static void wEnd()
+{
+  int kids, zombies;
+  wCensus(kids, zombies);
+  printf(" pend=%d kids=%d zombies=%d", ProcessFramework::signaled != 0 ? 1 : 0, kids, zombies);
+  hxEndLine();
+}
+
+static void wReset()
+{
+  for(int i = 0; i < wCount; ++i)
+  {
+    if(wobj[i] && wobj[i]->pid)
+      wobj[i]->kill();
+    delete wobj[i];
+    wobj[i] = 0;
+  }
+  if(ProcessFramework::signaled > 0)
+  {
+    int status;
+    waitpid(ProcessFramework::signaled, &status, 0);
+  }
+  ProcessFramework::signaled = 0;
+  ProcessFramework::waitState = 0;
+}
+
+static void* wInterrupter(void* arg)
+{
+  usleep((useconds_t)(size_t)arg * 1000);
+  Process::interrupt();
+  return 0;
+}
+
+static void opWait(const HxLine& l)
+{
+  const char* op = l.tok[1];
+  int i = l.ntok >= 3 && l.tok[2][0] >= '0' && l.tok[2][0] < '0' + wCount && !l.tok[2][1] ? l.tok[2][0] - '0' : -1;
+  if(l.ntok == 2 && strcmp(op, "new") == 0)
+  {
+    wReset();
+    for(int k = 0; k < wCount; ++k)
+      wobj[k] = new Process;
+    printf("w new");
+  }
+  else if(!wobj[0])
+  {
+    printf("bad-op");
+    hxEndLine();
+    return;
+  }
+  else if((l.ntok == 5 || l.ntok == 4) && strcmp(op, "start") == 0 && i >= 0 && (strcmp(l.tok[3], "z") == 0) == (l.ntok == 5) &&
+    (l.ntok == 5 || strcmp(l.tok[3], "r") == 0))
+  {
+    bool z = l.ntok == 5;
+    char code[16];
+    snprintf(code, sizeof(code), "%u", z ? (unsigned)hxNum(l, 4) : 0u);
+    char* argvZ[] = {(char*)childPath, (char*)"@exit", code};
+    char* argvR[] = {(char*)childPath, (char*)"@pause"};
+    bool ok = z ? wobj[i]->open(String(childPath, childPathLen), 3, argvZ, 0) : wobj[i]->open(String(childPath, childPathLen), 2, argvR, 0);
+    if(ok && z)
+      untilZombie(wobj[i]->pid);
+    printf("w start ok=%d", ok ? 1 : 0);
+  }
+  else if(l.ntok == 3 && strcmp(op, "die") == 0 && i >= 0)
+  { // the child-exit oracle: a running child is terminated from outside (SIGTERM: WEXITSTATUS is 0)
+    bool ok = wobj[i]->pid != 0 && !isZombie(wobj[i]->pid) && ::kill((pid_t)wobj[i]->pid, SIGTERM) == 0;
+    if(ok)
+      untilZombie(wobj[i]->pid);
+    printf("w die ok=%d", ok ? 1 : 0);
+  }
+  else if(l.ntok == 3 && strcmp(op, "join") == 0 && i >= 0)
+  {
+    uint32 code = 9999;
+    bool ok = wobj[i]->join(code);
+    if(ok)
+      printf("w join ok=1 code=%u", (unsigned)code);
+    else
+      printf("w join ok=0 code=-");
+  }
+  else if(l.ntok == 3 && strcmp(op, "kill") == 0 && i >= 0)
+    printf("w kill ok=%d", wobj[i]->kill() ? 1 : 0);
+  else if(l.ntok == 2 && strcmp(op, "intr") == 0)
+  {
+    Process::interrupt();
+    printf("w intr");
+  }
+  else if(l.ntok == 5 && strcmp(op, "wait") == 0)
+  {
+    Process* list[8];
+    usize n = 0;
+    bool bad = false;
+    if(strcmp(l.tok[2], "-") != 0)
+      for(const char* c = l.tok[2]; *c; ++c)
+        if(*c >= '0' && *c < '0' + wCount && n < 8)
+          list[n++] = wobj[*c - '0'];
+        else
+          bad = true;
+    if(bad)
+    {
+      printf("bad-op");
+      hxEndLine();
+      return;
+    }
+    unsigned long ms = hxNum(l, 3);
+    pthread_t th;
+    bool threaded = ms > 0 && pthread_create(&th, 0, wInterrupter, (void*)(size_t)ms) == 0;
+    // an exactly sized copy of the pointer list
+    Process** exact = (Process**)malloc(n ? n * sizeof(Process*) : 1);
+    memcpy(exact, list, n * sizeof(Process*));
+    Process* r = Process::wait(exact, n);
+    free(exact);
+    if(threaded)
+      pthread_join(th, 0);
+    int ri = -1;
+    for(int k = 0; k < wCount; ++k)
+      if(r == wobj[k])
+        ri = k;
+    if(!r)
+      printf("w wait ret=null");
+    else
+      printf("w wait ret=%d term=%d", ri, ri >= 0 && wobj[ri]->pid && isZombie(wobj[ri]->pid) ? 1 : 0);
+  }
+  else
+  {
+    printf("bad-op");
+    hxEndLine();
+    return;
+  }
+  wEnd();
+}
+
 int main(int argc, char** argv)
 {
   if(argc > 1)
@@ -1211,12 +1587,15 @@ int main(int argc, char** argv)
     if(hxIs(l, "reset", 0))
     {
       procNew();
+      wReset();
       clearTestEnv();
       printf("ready");
       hxEndLine();
     }
     else if(l.ntok >= 2 && strcmp(l.tok[0], "args") == 0)
       opArgs(l);
+    else if(hxIs(l, "args0", 0))
+      opArgs0();
     else if(hxIs(l, "split", 1))
       opSplit(l);
     else if(l.ntok >= 4 && strcmp(l.tok[0], "run") == 0)
@@ -1245,6 +1624,14 @@ int main(int argc, char** argv)
       opKillBusy(l);
     else if(l.ntok >= 2 && strcmp(l.tok[0], "env") == 0)
       opEnv(l);
+    else if(l.ntok >= 2 && strcmp(l.tok[0], "w") == 0)
+      opWait(l);
+    else if(hxIs(l, "pexit", 1))
+      opPExit(l);
+    else if(hxIs(l, "ids", 0))
+      opIds();
+    else if(hxIs(l, "io2", 3))
+      opIo2(l);
     else
     {
       printf("bad-op");
@@ -1252,6 +1639,7 @@ int main(int argc, char** argv)
     }
     alarm(0);
   }
+  wReset();
   delete proc;
   return 0;
 }
